@@ -163,6 +163,8 @@ class UnitRegistry:
 
         # Add to lut
         self.lut[symbol] = (base_value, dimensions, offset, tex_repr, prefixable)
+        # re-adding a symbol changes what cached unit strings mean
+        self._unit_object_cache.clear()
 
     def remove(self, symbol):
         """
@@ -184,8 +186,9 @@ class UnitRegistry:
             )
 
         del self.lut[symbol]
-        if symbol in self._unit_object_cache:
-            del self._unit_object_cache[symbol]
+        # cached units built from any string that mentions ``symbol`` (compound
+        # and SI-prefixed forms included) are stale now, not only ``symbol`` itself
+        self._unit_object_cache.clear()
 
     def modify(self, symbol, base_value):
         """
@@ -217,8 +220,9 @@ class UnitRegistry:
             new_dimensions = self.lut[symbol][1]
 
         self.lut[symbol] = (float(base_value), new_dimensions) + self.lut[symbol][2:]
-        if symbol in self._unit_object_cache:
-            del self._unit_object_cache[symbol]
+        # cached units built from any string that mentions ``symbol`` (compound
+        # and SI-prefixed forms included) are stale now, not only ``symbol`` itself
+        self._unit_object_cache.clear()
 
     def keys(self):
         """
